@@ -1,1 +1,2 @@
 import TephraProofs.SpanAlg
+import TephraProofs.Canon
